@@ -63,7 +63,7 @@ type c06Exec struct {
 // c06Execute runs the history once. failAt >= 0 injects a fault of the given kind at that
 // ABSOLUTE remote I/O position (the executions replay the dry run's choices, so positions
 // line up until the fault). A fault may land in an intermediate Commit or in the last one.
-func c06Execute(in *cacheIn, env *Env, failAt int, kind string) (ex c06Exec) {
+func c06Execute(in *cacheIn, env *Env, failAt int, kind string, second int) (ex c06Exec) {
 	res := env.Sim(SimOpts{MaxSteps: 250000, FairSteps: 50000}, func() {
 		base, err := memfs.NewFilespace()
 		if err != nil {
@@ -170,8 +170,19 @@ func c06Execute(in *cacheIn, env *Env, failAt int, kind string) (ex c06Exec) {
 		if dirty {
 			// faults stop; a later Commit must succeed and bring the remote to the model tree
 			st.FailAt = map[int]string{}
+			if second >= 0 {
+				// the recovery Commit fails as well (its second-th remote call); the one after must converge
+				st.FailAt[st.Pos+second] = ""
+			}
 			if !commit("Commit after the failed one") {
 				return
+			}
+			if dirty {
+				env.Count("probe.two-commits-in-a-row-failed")
+				st.FailAt = map[int]string{}
+				if !commit("Commit after two failed ones") {
+					return
+				}
 			}
 		}
 		ex.fired = len(st.Fired)
@@ -189,7 +200,7 @@ func c06Run(inI interface{}, env *Env) *Failure {
 	in := inI.(*cacheIn)
 	env.Count("nontrivial")
 	mark := env.Mark()
-	dry := c06Execute(in, env, -1, "")
+	dry := c06Execute(in, env, -1, "", -1)
 	seg := env.Segment(mark)
 	if dry.fail != nil {
 		return dry.fail
@@ -204,15 +215,30 @@ func c06Run(inI interface{}, env *Env) *Failure {
 		if pos < len(dry.trace) && strings.HasPrefix(dry.trace[pos], "Write ") {
 			kinds = []string{"", "torn"}
 		}
+		type plan struct {
+			kind   string
+			second int
+		}
+		var plans []plan
 		for _, k := range kinds {
+			plans = append(plans, plan{k, -1})
+		}
+		if where == "last Commit" {
+			plans = append(plans, plan{"", env.Draw(8)}) // and the recovery Commit fails too
+		}
+		for _, pl := range plans {
+			k := pl.kind
 			var ex c06Exec
-			env.WithReplay(seg, func() { ex = c06Execute(in, env, pos, k) })
+			env.WithReplay(seg, func() { ex = c06Execute(in, env, pos, k, pl.second) })
 			env.Count("faulted-executions")
 			if ex.fired == 0 && ex.fail == nil && !ex.cut {
 				env.Count("probe.faulted-position-not-reached")
 			}
 			if ex.fail != nil {
 				ex.fail.Msg = fmt.Sprintf("[fault at remote I/O position %d, %s] %s", pos, where, ex.fail.Msg)
+				if pl.second >= 0 {
+					ex.fail.Msg = fmt.Sprintf("[and at call %d of the recovery Commit] %s", pl.second, ex.fail.Msg)
+				}
 				return ex.fail
 			}
 		}
@@ -243,7 +269,7 @@ func init() {
 		New:    func() interface{} { return &cacheIn{} },
 		Run:    c06Run,
 		Shrink: cacheShrink,
-		Rule: "one case = (initial remote tree <=8 nodes, 1-25 cache operations on overlapping pool paths, optional intermediate Commits); execution 0 fault-free (remote untouched before Commit, remote = model after), then the final Commit is re-executed once per remote I/O position x applicable fault kind (op-error, read/write-error, torn-write, close-error): EVERY position of that Commit is faulted; journal iteration order inside Commit is a seeded choice; " +
+		Rule: "one case = (initial remote tree <=8 nodes, 1-25 cache operations on overlapping pool paths, optional intermediate Commits); execution 0 fault-free (remote untouched before Commit, remote = model after), then the final Commit is re-executed once per remote I/O position x applicable fault kind (op-error, read/write-error, torn-write, close-error): EVERY position of that Commit is faulted, once more with a second fault in the recovery Commit (two failed Commits in a row, then a fault-free one); journal iteration order inside Commit is a seeded choice; " +
 			"every case is non-trivial; distinct = distinct (remote tree, operations, commit points)",
 		Real:        []string{"filesystem/fscache (Cache, Commit)", "filesystem/fshelper (StreamCopy, Copier, Copy incl. fsloop, SubFS)", "memfs buffer and memfs remote"},
 		Stub:        []string{"FaultFS around the remote", "sync primitives, scheduler, clock (simrt)"},
